@@ -1,7 +1,10 @@
 (* C01 - "direct inspection of the face list": the specification side.  Every function here reads the face list
    (through the list of its corners with their coordinates) by linear search / position arithmetic only; none of it
    mentions the tables of the model.  Also the hypotheses of the theorems (oriented manifold polygon surface) as
-   Props together with the boolean checkers the correspondence evaluates on every generated mesh. No proofs. *)
+   Props together with the boolean checkers the correspondence evaluates on every generated mesh. No proofs.
+   (The remaining specification vocabulary of Props.v - mesh_of, nbrs, edges_exact, sp_vertex_ring, sp_corner_face,
+   sp_opposite_face_inds, sp_common_edge_loop, the *_stmt conjunctions - is defined in the Proofs*.v file that first uses
+   it; the list is at the top of Props.v.) *)
 From Coq Require Import ZArith List Bool.
 Import ListNotations.
 Require Import MV.C01.Defs.
